@@ -128,7 +128,7 @@ def cases(tier, seed, shard, nshards):
         if name == "cycle":
             spec["steps"] = rng.randint(1, 6)
         yield {"kind": "spec", "spec": spec, "susp": rng.choice([1, 2, 3]), "fn_susp": rng.choice([0, 1, 2]),
-               "flav": [rng.choice(["async_gen", "async_class"]) for _ in spec["srcs"]], "fnfl": rng.choice(["async_def", "callobj", "awaitobj"])}
+               "flav": [rng.choice(["async_gen", "async_class", "async_class_future"]) for _ in spec["srcs"]], "fnfl": rng.choice(["async_def", "callobj", "awaitobj"])}
     for i, name in enumerate(sorted(CATALOGUE)):
         if i % nshards == shard:
             for susp in (1, 2, 3):
@@ -407,7 +407,179 @@ async def sc_anext_iter(susp):
     return canon(a), canon(b), c, d
 
 
-CATALOGUE = {"lru_cache": sc_lru, "cache": sc_cache, "cached_property_lock": sc_cached_property,
+class FutureLike:
+    """A user awaitable that is not a coroutine: every ``__await__`` call starts a fresh run.
+
+    The await protocol calls ``__await__`` exactly once per ``await``.  A relay that asks for it again
+    (for instance once per resumption) restarts the user's work; that is recorded as a foreign event.
+    """
+
+    def __init__(self, tag, susp, result=None, raises=None):
+        self.tag, self.susp, self.result, self.raises, self.awaits = tag, susp, result, raises, 0
+
+    def __await__(self):
+        self.awaits += 1
+        if self.awaits > 1:
+            CTX.foreign.append(f"awaitable {self.tag!r} restarted: __await__ called {self.awaits} times for one await")
+        if self.susp:
+            yield from Suspend(self.tag, self.susp).__await__()
+        if self.raises is not None:
+            raise self.raises
+        return self.result
+
+
+class FutureLikeIterable(FutureLike):
+    """Like asyncio.Future: ``__iter__`` is an alias of ``__await__`` for legacy ``yield from``."""
+
+    __iter__ = FutureLike.__await__
+
+
+class _FLSource:
+    def __init__(self, tag, n, susp):
+        self.tag, self.n, self.susp, self.i, self.closed = tag, n, susp, 0, 0
+
+    def __aiter__(self):
+        return self
+
+    def __anext__(self):
+        self.i += 1
+        if self.i > self.n:
+            return FutureLike((self.tag, "end", self.i), self.susp, raises=StopAsyncIteration())
+        return FutureLike((self.tag, self.i), self.susp, result=(self.tag, self.i))
+
+    def aclose(self):
+        self.closed += 1
+        return FutureLike((self.tag, "aclose"), self.susp)
+
+
+async def sc_future_like(susp):
+    """Every slot of the user protocols filled with an awaitable object that is not a coroutine."""
+    out = []
+    src = _FLSource("a", 1, susp)
+    out.append(await A.anext(src))
+    out.append(await A.anext(src, "default"))
+    out.append(await A.anext(_FLSource("b", 1, susp), "default"))
+    try:
+        await A.anext(_FLSource("c", 0, susp))
+    except StopAsyncIteration:
+        out.append("stop")
+    out.append(await A.list(A.zip(_FLSource("d", 2, susp), _FLSource("e", 2, susp), strict=True)))
+    for first, second in ((0, 1), (1, 0), (2, 1)):
+        try:
+            out.append(await A.list(A.zip(_FLSource("f", first, susp), _FLSource("g", second, susp), strict=True)))
+        except ValueError as exc:
+            out.append(str(exc))
+    try:
+        out.append(await A.list(A.zip([], _FLSource("h", 1, susp), strict=True)))
+    except ValueError as exc:
+        out.append(str(exc))
+    out.append(await A.list(A.map(lambda x: FutureLike(("fn", x), susp, result=("m", x)), _FLSource("i", 2, susp))))
+    out.append(await A.list(A.filter(lambda x: FutureLike(("pred", x), susp, result=x[1] % 2), _FLSource("j", 3, susp))))
+    out.append(await A.reduce(lambda x, y: FutureLike(("red", x, y), susp, result=(x, y)), _FLSource("k", 3, susp)))
+    out.append(await A.list(A.chain(_FLSource("l", 1, susp), _FLSource("m", 1, susp))))
+    out.append(await A.list(A.islice(A.cycle(_FLSource("n", 2, susp)), 5)))
+    out.append(await A.list(A.takewhile(lambda x: FutureLike(("tw", x), susp, result=x[1] < 2), _FLSource("o", 3, susp))))
+    out.append([(k, await A.list(g)) async for k, g in
+                A.groupby(_FLSource("p", 4, susp), key=lambda x: FutureLike(("key", x), susp, result=x[1] // 2))])
+    t1, t2 = A.tee(_FLSource("q", 2, susp), 2)
+    out.append((await A.list(t1), await A.list(t2)))
+    async with A.scoped_iter(_FLSource("r", 3, susp)) as it:
+        out.append(await A.anext(it))
+        out.append(await A.anext(A.borrow(it), "default"))
+    state = {"n": 0}
+
+    def feed():
+        state["n"] += 1
+        return FutureLike(("feed", state["n"]), susp, result=state["n"])
+
+    out.append([x async for x in A.iter(feed, 3)])
+    out.append(await A.min(_FLSource("s", 3, susp), key=lambda x: FutureLike(("mk", x), susp, result=-x[1])))
+    out.append(await A.sorted(_FLSource("t", 3, susp), key=lambda x: FutureLike(("sk", x), susp, result=-x[1])))
+    out.append(await A.list(A.accumulate(_FLSource("u", 3, susp), lambda x, y: FutureLike(("acc", y), susp, result=y))))
+    out.append(await A.list(A.starmap(lambda *a: FutureLike(("sm", a), susp, result=a), A.zip(_FLSource("v", 2, susp)))))
+
+    # context managers, callbacks, caches
+    log = []
+
+    class CM:
+        def __init__(self, n):
+            self.n = n
+
+        def __aenter__(self):
+            log.append(("enter", self.n))
+            return FutureLike(("enter", self.n), susp, result=self.n)
+
+        def __aexit__(self, et, ev, tb):
+            log.append(("exit", self.n))
+            return FutureLike(("exit", self.n), susp, result=False)
+
+    class Thing:
+        def aclose(self):
+            log.append("aclose")
+            return FutureLike("thing-aclose", susp)
+
+    async with A.ExitStack() as stack:
+        out.append(await stack.enter_context(CM(1)))
+        stack.push(CM(2))
+        stack.callback(lambda x: FutureLike(("cb", x), susp, result=log.append(("cb", x))), 7)
+        stack.push(lambda et, ev, tb: FutureLike("pushed-exit", susp, result=False))
+    async with A.closing(Thing()):
+        pass
+
+    class Deco(A.ContextDecorator):
+        def __aenter__(self):
+            return FutureLike("deco-enter", susp, result=self)
+
+        def __aexit__(self, *exc):
+            return FutureLike("deco-exit", susp, result=False)
+
+    @Deco()
+    async def decorated():
+        return "decorated"
+
+    out.append(await decorated())
+
+    @A.lru_cache(maxsize=2)
+    def cached(x):
+        return FutureLike(("cached", x), susp, result=("r", x))
+
+    out.append([await cached(1), await cached(1), await cached(2)])
+
+    class K:
+        @A.cached_property
+        async def p(self):  # the getter must be a coroutine function; what it awaits need not be
+            return await FutureLike("getter", susp, result="value")
+
+    k = K()
+    out.append((await k.p, await k.p))
+
+    class FLLock:
+        def __aenter__(self):
+            return FutureLike("lock-enter", susp)
+
+        def __aexit__(self, *exc):
+            return FutureLike("lock-exit", susp, result=False)
+
+    class K2:
+        @A.cached_property(FLLock)
+        async def p(self):
+            return await FutureLike("getter2", susp, result="value2")
+
+    k2 = K2()
+    out.append((await k2.p, await k2.p))
+    t3, t4 = A.tee(_FLSource("w", 2, susp), 2, lock=FLLock())
+    out.append((await A.list(t3), await A.list(t4)))
+
+    # helpers
+    out.append([x async for x in A.await_each([FutureLike(("ae", i), susp, result=i) for i in range(3)])])
+    out.append([x async for x in A.any_iter(FutureLike("outer", susp, result=[FutureLike(("it", i), susp, result=i) for i in range(2)]))])
+    out.append([x async for x in A.any_iter(FutureLikeIterable("outer-fut", susp, result=[FutureLikeIterable(("itf", i), susp, result=i) for i in range(2)]))])
+    out.append(await A.apply(lambda a, b: (a, b), FutureLike("ap1", susp, result=1), b=FutureLikeIterable("ap2", susp, result=2)))
+    out.append(await A.sync(lambda x: FutureLike(("sync", x), susp, result=x + 1))(4))
+    return out, log
+
+
+CATALOGUE = {"future_like_awaitables": sc_future_like, "lru_cache": sc_lru, "cache": sc_cache, "cached_property_lock": sc_cached_property,
              "cached_property": sc_cached_property_nolock, "contextmanager": sc_contextmanager,
              "ContextDecorator": sc_context_decorator, "ExitStack": sc_exitstack, "closing_nullcontext": sc_closing_nullcontext,
              "tee_lock": sc_tee_lock, "tee": sc_tee_nolock, "groupby": sc_groupby, "borrow_scoped_iter": sc_borrow_scoped,
